@@ -26,6 +26,10 @@ META = dict(
                 thorough=dict(utmp="one record, all bytes symbolic; two records", ioprio="as quick", nic_name="lengths 0..20, 64, 255")),
     outside=["everything inside CPython and libc (getmntent, getifaddrs, getnameinfo)", "the sanitizer-run formulation of the statement (a different technique)", "psutil_disk_partitions' loop (only libc calls)", "psutil_proc_cpu_affinity_get/set (symbolic CPU_SET indexing is not supported by cir)",
              "psutil_convert_ipaddr's MAC loop", "wrong argument *types* (rejected inside PyArg_ParseTuple, which is trusted)"],
+    extra=dict(c_functions_encoded=["arch/linux/users.c:psutil_users", "arch/linux/proc.c:psutil_proc_ioprio_get", "arch/linux/proc.c:psutil_proc_ioprio_set", "_psutil_posix.c:psutil_net_if_mtu",
+                                    "_psutil_posix.c:psutil_net_if_flags", "_psutil_posix.c:psutil_posix_getpriority", "_psutil_posix.c:psutil_posix_setpriority", "_psutil_common.c:psutil_check_pid_range",
+                                    "arch/linux/mem.c:psutil_linux_sysinfo"],
+               ir="clang -S -emit-llvm -O0 -Xclang -disable-O0-optnone with the Linux macros of setup.py, regenerated from /repo on every run"),
     labels=["memory-in-bounds", "cstring-within-record", "string-within-field", "users-fields", "ioprio-packing", "ioprio-roundtrip", "strncpy-in-bounds", "partitions-filter", "users-tuple"],
 )
 
@@ -301,16 +305,19 @@ def nic_stubs(state):
         so = st.objs[src.obj]
         stop = None
         for i in range(k):
+            if stop is not None:            # after the source's terminator strncpy pads with NULs and reads nothing more
+                I.store(st, cir.Ptr(dst.obj, dst.off + i), 1, z3.BitVecVal(0, 8))
+                continue
             if src.off + i >= so.size:
                 I.oblige(st, False, f"strncpy reads byte {i} of the source past its object (size {so.size})")
                 break
             b = z3.simplify(I.byte_at(st, src.obj, src.off + i))
-            if stop is None:
-                I.store(st, cir.Ptr(dst.obj, dst.off + i), 1, b)
-                if z3.is_bv_value(b) and b.as_long() == 0:
+            I.store(st, cir.Ptr(dst.obj, dst.off + i), 1, b)
+            if z3.is_bv_value(b):
+                if b.as_long() == 0:
                     stop = i
-            else:
-                I.store(st, cir.Ptr(dst.obj, dst.off + i), 1, z3.BitVecVal(0, 8))
+            elif I.sat(st, b == 0)[0] != "unsat":
+                raise NotImplementedError("strncpy source byte that may or may not be NUL (the harness pins name characters to non-zero)")
         st.log.append(("strncpy", k))
         return dst
 
@@ -323,7 +330,14 @@ def nic_stubs(state):
         st.log.append(("build", a))
         return cir.newobj(I, st, "obj")
 
-    return {"@PyArg_ParseTuple": parse_stub(state), "@strncpy": strncpy, "@socket": sym32("sock"), "@ioctl": sym32("ioctl"), "@close": sym32("close"), "@Py_BuildValue": build,
+    def ioctl(I, st, w, c, fd, req, ifr=None, *rest):
+        # the kernel fills the request union at offset 16 of struct ifreq; flags are pinned (the 17 flag tests would fork 2^17
+        # ways on a symbolic word, which has nothing to do with the name copy checked here)
+        if isinstance(ifr, cir.Ptr) and ifr.obj is not None and st.objs[ifr.obj].size >= 20:
+            I.store(st, cir.Ptr(ifr.obj, ifr.off + 16), 2, z3.BitVecVal(0x1043, 16))
+        return z3.BitVec(f"ioctl{len(st.log)}", 32)
+
+    return {"@PyArg_ParseTuple": parse_stub(state), "@strncpy": strncpy, "@socket": sym32("sock"), "@ioctl": ioctl, "@close": sym32("close"), "@Py_BuildValue": build,
             "@PyErr_SetFromErrno": lambda *a: cir.NULL, "@psutil_PyErr_SetFromOSErrnoWithSyscall": lambda *a: cir.NULL, "@PyList_New": lambda I, st, w, c, n: cir.newobj(I, st, "list"),
             "@append_flag": lambda I, st, w, c, *a: z3.BitVec(f"append{len(st.log)}", 32) if st.log.append(("append",)) is None else None, "@_Py_Dealloc": cir.nop, "@Py_XDECREF": cir.nop}
 
@@ -378,7 +392,7 @@ def small_c(ctx, fn):
 
 # ---- Python side ---------------------------------------------------------------------------------------------------------------
 
-FSTYPES = ["ext4", "tmpfs", "zfs", "proc", "xfs"]
+FSTYPES = ["ext4", "tmpfs", "zfs", "proc"]
 
 
 @harness("C17.partitions_py", quick=[dict(n=2)], thorough=[dict(n=3)])
@@ -391,8 +405,11 @@ def partitions_py(ctx, n):
     k.files["/proc/filesystems"] = "".join(("nodev\t" if nodev[t] else "\t") + t + "\n" for t in FSTYPES)
     ents = []
     for i in range(n):
-        dev = ctx.choice(f"dev{i}", ["/dev/sda1", "none", "", "tmpfs", "pool/data"])
-        fst = ctx.choice(f"fs{i}", FSTYPES)
+        if i == 0:       # one symbolic entry, the others concrete
+            dev = ctx.choice(f"dev{i}", ["/dev/sda1", "none", "", "tmpfs", "pool/data"])
+            fst = ctx.choice(f"fs{i}", FSTYPES)
+        else:
+            dev, fst = [("/dev/sdb1", "ext4"), ("none", "proc"), ("pool/x", "zfs")][(i - 1) % 3]
         ents.append((dev, f"/mnt/{i}", fst, "rw,relatime"))
     all_ = ctx.flag("all")
     k.files["/etc/mtab"] = ""
